@@ -339,6 +339,11 @@ class Interp:
                             and any(n not in ("States.Runtime", "States.ExecutionTimeout", "Task.Terminated") for n in e.names):
                         raise Unspec("ambiguous recoverability of %r under States.ALL" % (e.names,))
                     raise
+                if state.get("Type") == "Task" and "States.TaskFailed" not in e.names \
+                        and any("States.TaskFailed" in (h.get("ErrorEquals") or []) for h in (state.get("Retry") or []) + (state.get("Catch") or [])):
+                    # "States.TaskFailed acts as a wildcard that matches any known error name except States.Timeout" (AWS error-handling guide; the engine documents that it
+                    # follows it) vs. the States Language's plain name matching: whether a handler naming States.TaskFailed sees the Task state's own errors is not prescribed
+                    raise Unspec("States.TaskFailed handler and a Task error of another name %r" % (e.names,))
                 retried = False
                 for i, r in enumerate(state.get("Retry") or []):
                     if self._matches(r.get("ErrorEquals") or [], e):
